@@ -350,3 +350,64 @@ brk("c11-cust-values-rev", ["C11"], "src/expr.rs",
                 .map(|v| Into::<Value>::into(v).into())
                 .rev()
                 .collect(),""", "C11.R3:cust_with_values")
+
+# ---- C07 / C08 / C13 / C14 ---------------------------------------------------------------------------------------
+brk("c08-having-under-groups", ["C08", "C07"], "src/backend/query_builder.rs",
+    """                self.prepare_simple_expr(expr, sql);
+                false
+            });
+        }
+
+        self.prepare_condition(&select.having, "HAVING", sql);
+""",
+    """                self.prepare_simple_expr(expr, sql);
+                false
+            });
+            self.prepare_condition(&select.having, "HAVING", sql);
+        }
+""", "R3:guard")
+brk("c07-delete-limit-dropped", ["C07", "C08"], "src/backend/query_builder.rs",
+    """        self.prepare_delete_order_by(delete, sql);
+
+        self.prepare_delete_limit(delete, sql);
+""", """        self.prepare_delete_order_by(delete, sql);
+""", "R3:field")
+brk("c07-nulls-swapped", ["C07"], "src/backend/sqlite/query.rs",
+    """            Some(NullOrdering::Last) => write!(sql, " NULLS LAST").unwrap(),
+            Some(NullOrdering::First) => write!(sql, " NULLS FIRST").unwrap(),""",
+    """            Some(NullOrdering::Last) => write!(sql, " NULLS FIRST").unwrap(),
+            Some(NullOrdering::First) => write!(sql, " NULLS LAST").unwrap(),""", "C07.R4:kw:sqlite:NullOrdering")
+brk("c08-intersect-except", ["C08"], "src/backend/query_builder.rs",
+    """            UnionType::Intersect => write!(sql, " INTERSECT (").unwrap(),
+            UnionType::Distinct => write!(sql, " UNION (").unwrap(),
+            UnionType::Except => write!(sql, " EXCEPT (").unwrap(),""",
+    """            UnionType::Intersect => write!(sql, " EXCEPT (").unwrap(),
+            UnionType::Distinct => write!(sql, " UNION (").unwrap(),
+            UnionType::Except => write!(sql, " INTERSECT (").unwrap(),""", "C08.R5:kw")
+brk("c08-orders-rev", ["C08"], "src/backend/query_builder.rs",
+    """            select.orders.iter().fold(true, |first, expr| {""", """            select.orders.iter().rev().fold(true, |first, expr| {""", "C08.R4:reorder")
+brk("c08-mysql-nulls-emulation", ["C08"], "src/backend/mysql/query.rs",
+    """                write!(sql, " IS NULL ASC, ").unwrap()""", """                write!(sql, " IS NULL DESC, ").unwrap()""", "C08.R5:kw:mysql:NullOrdering")
+brk("c08-missing-close-paren", ["C08"], "src/backend/query_builder.rs",
+    """                write!(sql, "(").unwrap();
+                self.prepare_values_list(values, sql);
+                write!(sql, ")").unwrap();""",
+    """                write!(sql, "(").unwrap();
+                self.prepare_values_list(values, sql);""", "C08.R2:parens")
+brk("c13-affinity-point", ["C13"], "src/backend/sqlite/table.rs", """                ColumnType::Uuid => "uuid_text".into(),""", """                ColumnType::Uuid => "uuid_point".into(),""", "C13.R2:sqlite:type:Uuid")
+brk("c14-mysql-unsigned-dropped", ["C14"], "src/backend/mysql/table.rs", "ColumnType::TinyUnsigned\n", "ColumnType::TinyInteger\n", "C14.R2:mysql:type", )
+ben("c14-benign-for-loop", ["C14"], "src/backend/postgres/table.rs",
+    """                    let first = column_def.types.is_none();
+
+                    column_def.spec.iter().fold(first, |first, column_spec| {""",
+    """                    let mut first = column_def.types.is_none();
+
+                    for column_spec in column_def.spec.iter() {""",
+    edits=[("src/backend/postgres/table.rs", """                    let first = column_def.types.is_none();
+
+                    column_def.spec.iter().fold(first, |first, column_spec| {""", """                    let mut first = column_def.types.is_none();
+
+                    for column_spec in column_def.spec.iter() {"""),
+           ("src/backend/postgres/table.rs", """                        first && no_clause
+                    });""", """                        first = first && no_clause;
+                    }""")])
